@@ -1,7 +1,7 @@
 (** Properties_C16.v — C16: wire primitives round-trip exactly and reject what they
     cannot represent.  Statements only; each is closed by [exact] of a lemma proved in
     the *Proofs.v files. *)
-From GW Require Import Base Wire WireProofs Civil CivilSweep CivilProofs CivilProofs2 Quote Utf8Proofs QuoteProofs QuoteStrict Href HrefProofs.
+From GW Require Import Base Wire WireProofs Civil CivilSweep CivilProofs CivilProofs2 CivilProofs3 Quote Utf8Proofs QuoteProofs QuoteStrict Href HrefProofs.
 Local Open Scope Z_scope.
 
 (** ** Depth (0, 1, infinity) *)
@@ -134,15 +134,19 @@ Theorem C16_httpdate_accepts_imf : forall s t, den_imf s = Some t -> time_unmars
 Proof. exact time_accepts_imf. Qed.
 Print Assumptions C16_httpdate_accepts_imf.
 
+(** every HTTP-date of RFC 7231 7.1.1.1, in any of its three forms (IMF-fixdate,
+    rfc850-date, asctime-date), is accepted with the instant it denotes *)
+Theorem C16_httpdate_accepts_grammar : forall s t, http_den s = Some t -> time_unmarshal s = Ok (t, 0).
+Proof. exact time_accepts_grammar. Qed.
+Print Assumptions C16_httpdate_accepts_grammar.
+
 (** rejection side, except the listed finding C16-httpdate-lenient: an accepted text is an
-    HTTP-date.  PARTIAL: that the instant decoded is the one the text denotes is proved
-    for IMF-fixdate texts (above) and for what the encoder sends, not for the obsolete
-    rfc850-date and asctime-date forms (checked per run only) ... *)
-Theorem C16_httpdate_rejects_except_lenient_partial : forall s t ns,
+    HTTP-date and the value decoded is the instant it denotes ... *)
+Theorem C16_httpdate_rejects_except_lenient : forall s t ns,
   kf_httpdate_lenient s (obs_of (time_unmarshal s)) = false ->
-  time_unmarshal s = Ok (t, ns) -> exists t', http_den s = Some t'.
-Proof. exact time_rejects_except_lenient. Qed.
-Print Assumptions C16_httpdate_rejects_except_lenient_partial.
+  time_unmarshal s = Ok (t, ns) -> http_den s = Some t /\ ns = 0.
+Proof. exact time_rejects_except_lenient_full. Qed.
+Print Assumptions C16_httpdate_rejects_except_lenient.
 
 (** ... which is real *)
 Theorem C16_httpdate_rejects_refuted : exists s v,
